@@ -90,13 +90,50 @@ fn generate(seed: u64, tier: Tier, em: &mut Emitter) {
     for (src, steps, parts) in join_side_barrier_cases(&mut rng, tier != Tier::Quick) {
         emit_pair(em, &src, &steps, parts, &["sweep", "join_side_barrier"]);
     }
+    // partitions emptied by an upstream filter (first / last / middle / all but one / all):
+    // on a barrier-free join side (the coalesce closures), and in front of every barrier kind
+    let full = tier != Tier::Quick;
+    for (src, steps, parts, pat) in emptied_join_cases(full) {
+        emit_pair(em, &src, &steps, parts, &["sweep", "emptied_partition", "emptied_join_side", pat]);
+    }
+    for (src, steps, parts, pat) in emptied_barrier_cases(full) {
+        emit_pair(em, &src, &steps, parts, &["sweep", "emptied_partition", "emptied_before_barrier", pat]);
+    }
+    // more than 64 effective partitions
+    for (src, steps, parts) in many_partition_cases(full) {
+        emit_pair(em, &src, &steps, parts, &["sweep", "many_partitions"]);
+    }
+    // branching programs: three handles built first, then collected in both modes
+    let mut rngb = seed_mix(seed, 0xC01_0003);
+    let mut made = 0;
+    while made < (if full { 1000 } else { 120 }) {
+        let n = gen_len(&mut rngb);
+        let src = gen_src(&mut rngb, n, true, true);
+        let parts = gen_parts(&mut rngb, src.len());
+        let mut o = GenOpts::all();
+        o.side_inputs = true;
+        o.joins = rngb.chance(1, 4);
+        if rngb.chance(1, 2) {
+            o.barriers = false;
+            o.joins = false;
+        }
+        let Some((pre, a, b)) = gen_branch(&mut rngb, &src, &o, parts) else { continue };
+        let all = [pre.clone(), a.clone(), b.clone()].concat();
+        let mut tags = case_tags(&src, &all, Mode::Par(parts), &["random"]);
+        tags.push("branch".into());
+        let tr: Vec<&str> = tags.iter().map(String::as_str).collect();
+        em.case("branchpair", branch_input(&src, &pre, &a, &b, Mode::Par(parts)),
+                nontrivial(&src, &all, Mode::Par(parts), false), &tr);
+        made += 1;
+    }
     let mut rng = seed_mix(seed, 0xC01_0002);
-    let count = if tier == Tier::Quick { 1150 } else { 11000 };
+    let count = if tier == Tier::Quick { 700 } else { 9000 };
     for _ in 0..count {
         let n = gen_len(&mut rng);
         let src = gen_src(&mut rng, n, true, true);
         let parts = gen_parts(&mut rng, src.len());
         let mut o = GenOpts::all();
+        o.side_inputs = true;
         o.odd_batches = rng.chance(1, 8);
         o.empty_minmax = rng.chance(1, 4);
         o.reorder_class = rng.chance(1, 6);
@@ -113,6 +150,7 @@ fn generate(seed: u64, tier: Tier, em: &mut Emitter) {
 fn run(kind: &str, input: &Value) -> Value {
     match kind {
         "pair" => run_pair_case(input, DIR),
+        "branchpair" => run_branchpair_case(input, DIR),
         _ => serde_json::json!(["invalid"]),
     }
 }
